@@ -85,7 +85,7 @@ const InstInfo _inst_info_table[] = {
   INST(Autizb           , BaseR              , (0b11011010110000010011011111100000, kX, kZR, 0)                                      , kRWI_X    , 0                         , 3  ), // #27
   INST(Axflag           , BaseOp             , (0b11010101000000000100000001011111)                                                  , 0         , 0                         , 6  ), // #28
   INST(B                , BaseBranchRel      , (0b00010100000000000000000000000000)                                                  , 0         , F(Cond)                   , 0  ), // #29
-  INST(Bc               , BaseBranchRel      , (0b00010100000000000000000000010000)                                                  , 0         , F(Cond)                   , 1  ), // #30
+  INST(Bc               , BaseBranchRel      , (0b01010100000000000000000000010000)                                                  , 0         , F(Cond)                   , 1  ), // #30
   INST(Bfc              , BaseBfc            , (0b00110011000000000000001111100000)                                                  , kRWI_X    , 0                         , 0  ), // #31
   INST(Bfi              , BaseBfi            , (0b00110011000000000000000000000000)                                                  , kRWI_X    , 0                         , 0  ), // #32
   INST(Bfm              , BaseBfm            , (0b00110011000000000000000000000000)                                                  , kRWI_X    , 0                         , 0  ), // #33
@@ -1077,7 +1077,7 @@ const BaseBranchReg baseBranchReg[3] = {
 
 const BaseBranchRel baseBranchRel[3] = {
   { 0b00010100000000000000000000000000 }, // b
-  { 0b00010100000000000000000000010000 }, // bc
+  { 0b01010100000000000000000000010000 }, // bc
   { 0b10010100000000000000000000000000 }  // bl
 };
 
